@@ -69,7 +69,7 @@ Qed.
 (* GetKind on a sequence with an odd number of elements none of whose even positions reads "kind":
    the C12 finding class panic:kyaml/yaml.visitFieldsWhileTrue:index-oob, reproduced by the model *)
 Lemma get_kind_seq_panics :
-  exists n, get_kind n = Panic.
+  exists n, rn_get_kind n = Panic.
 Proof. exists (Seq [Scalar TStr SPlain "a"]). reflexivity. Qed.
 
 Lemma map_field_text_no_panic_map name kvs : map_field_text name (Map kvs) <> Panic.
@@ -169,7 +169,7 @@ Proof. vm_compute. repeat split. Qed.
 Lemma is_match_gvk_raw_agrees fs obj :
   is_seq obj = false -> is_match_gvk_raw fs obj = Ok (is_match_gvk fs obj).
 Proof.
-  intros Hs. unfold is_match_gvk_raw, is_match_gvk, get_kind, get_api_version, obj_kind, obj_api_version, map_field_value.
+  intros Hs. unfold is_match_gvk_raw, is_match_gvk, rn_get_kind, rn_get_api_version, obj_kind, obj_api_version, map_field_value.
   destruct obj as [t s v|kvs|es]; try discriminate.
   - cbn. destruct (parse_group_version ""); cbn.
     destruct (String.eqb (fs_kind fs) ""); reflexivity.
